@@ -823,6 +823,19 @@ func ruleKinds(w *World, r *Report, pkg *ssa.Package) {
 			}
 			r.Check(len(problems) == 0, rule, key, "-", fmt.Sprintf("%s emitted by the %s diff is routed by next()+dispatch back to %s and accepted by its patch", k, t, t), strings.Join(problems, "; "))
 		}
+		// and nothing else: a patch that also accepts a kind its own diff never
+		// emits applies hunks addressed to another kind of container (a list
+		// hunk with its index and context applied to an object member)
+		var extra []string
+		for k := range kt.accept[t] {
+			if !kt.emit[t][k] {
+				extra = append(extra, k)
+			}
+		}
+		sort.Strings(extra)
+		r.Check(len(extra) == 0, rule, fmt.Sprintf("v2.(%s).patch:accepts-own-kinds-only", t), "-",
+			fmt.Sprintf("(%s).patch accepts exactly the path element kinds the %s diff emits %v", t, t, kinds),
+			fmt.Sprintf("(%s).patch also accepts %v, which the %s diff never emits: a hunk addressed to another kind of container is applied here instead of being rejected", t, extra, t))
 	}
 }
 
@@ -2234,6 +2247,7 @@ func ruleWholeContainer(w *World, r *Report, pkg *ssa.Package, tag, fAdd string)
 				}
 			}
 		}
+		missEdgesOnly := append([]Edge{}, okEdges...)
 		// merge-strategy edges
 		for _, p := range fn.Params {
 			if typeName(p.Type()) != "patchStrategy" {
@@ -2265,6 +2279,14 @@ func ruleWholeContainer(w *World, r *Report, pkg *ssa.Package, tag, fAdd string)
 			}
 			return false
 		}
+		missOnly := func(b *ssa.BasicBlock) bool {
+			for _, e := range missEdgesOnly {
+				if edgeDominatesOrSame(e, b) {
+					return true
+				}
+			}
+			return false
+		}
 		k := 0
 		// (1) replacement hunks built in place
 		for _, fs := range h.fieldStores(fn, fAdd) {
@@ -2282,6 +2304,11 @@ func ruleWholeContainer(w *World, r *Report, pkg *ssa.Package, tag, fAdd string)
 			}
 			n++
 			k++
+			if !missOnly(fs.st.Block()) {
+				r.Check(behindNotEqual(fn, fs.st.Block()), rule, fmt.Sprintf("%s:whole-replacement#%d:only-if-unequal", fnName(fn), k), w.Pos(fs.st.Pos()),
+					"where both sides are arrays of this kind the whole-array hunk is built only after Equals has answered false",
+					"a hunk replaces the receiver by the whole argument although both are arrays of this kind and without Equals having answered false: an unchanged array is restated as a hunk (a no-op hunk; the merge diff of equal documents is not empty)")
+			}
 			r.Check(allowed(fs.st.Block()), rule, fmt.Sprintf("%s:whole-replacement#%d", fnName(fn), k), w.Pos(fs.st.Pos()),
 				"the hunk that puts the whole argument into "+fAdd+" is built only where the argument is not an array of this kind, or under merge strategy",
 				"a hunk replaces the receiver by the whole argument although both are arrays of the same kind and the strategy is not merge: equal or nearly equal arrays are restated instead of diffed")
@@ -2300,21 +2327,60 @@ func ruleWholeContainer(w *World, r *Report, pkg *ssa.Package, tag, fAdd string)
 				if !others[strip(a)] {
 					continue
 				}
-				gOthers := map[ssa.Value]bool{g.Params[i]: true}
-				builds := false
-				for _, fs := range h.fieldStores(g, fAdd) {
-					for _, el := range appendedElems(fs.st.Val) {
-						if wholeValue(w, el, gOthers, 0) {
-							// a helper that only does so under merge strategy of its own is not a strict replacement
-							builds = true
+				// does g (or a helper it hands the argument on to) build a hunk holding the whole argument,
+				// and is every such construction behind an Equals-false edge somewhere on the way?
+				var wholeIn func(g *ssa.Function, i, depth int) (builds, unguarded bool)
+				wholeIn = func(g *ssa.Function, i, depth int) (builds, unguarded bool) {
+					gOthers := map[ssa.Value]bool{g.Params[i]: true}
+					for _, fs := range h.fieldStores(g, fAdd) {
+						for _, el := range appendedElems(fs.st.Val) {
+							if wholeValue(w, el, gOthers, 0) {
+								builds = true
+								if !behindNotEqual(g, fs.st.Block()) {
+									unguarded = true
+								}
+							}
 						}
 					}
+					if depth >= 3 {
+						return
+					}
+					allInstrs(g, func(in ssa.Instruction) {
+						c2, ok := in.(*ssa.Call)
+						if !ok {
+							return
+						}
+						g2 := staticCallee(c2)
+						if g2 == nil || g2.Blocks == nil || fnPkg(g2) != pkg.Pkg || g2 == g || len(c2.Call.Args) != len(g2.Params) {
+							return
+						}
+						for j, a2 := range c2.Call.Args {
+							if strip(a2) != ssa.Value(g.Params[i]) {
+								continue
+							}
+							b2, u2 := wholeIn(g2, j, depth+1)
+							if b2 {
+								builds = true
+								if u2 && !behindNotEqual(g, c2.Block()) {
+									unguarded = true
+								}
+							}
+						}
+					})
+					return
 				}
+				builds, unguardedInside := wholeIn(g, i, 0)
 				if !builds {
 					continue
 				}
 				n++
 				k++
+				if !missOnly(c.Block()) {
+					guarded := behindNotEqual(fn, c.Block()) || !unguardedInside
+					r.Check(guarded, rule, fmt.Sprintf("%s:whole-replacement#%d→%s:only-if-unequal", fnName(fn), k, g.Name()), w.Pos(c.Pos()),
+						"where both sides are arrays of this kind the whole-array hunk is built only after Equals has answered false (at the call or inside the helper)",
+						"the helper "+g.Name()+" replaces the receiver by the whole argument although both are arrays of this kind and without Equals having answered false: an unchanged array is restated as a hunk (a no-op hunk; the merge diff of equal documents is not empty)")
+				}
 				r.Check(allowed(c.Block()), rule, fmt.Sprintf("%s:whole-replacement#%d→%s", fnName(fn), k, g.Name()), w.Pos(c.Pos()),
 					"the helper that replaces the receiver by the whole argument is called only where the argument is not an array of this kind, or under merge strategy",
 					"the helper "+g.Name()+", which replaces the receiver by the whole argument, is called although both are arrays of the same kind and the strategy is not merge: equal or nearly equal arrays are restated instead of diffed")
@@ -2509,4 +2575,200 @@ func ruleArrayDispatch(w *World, r *Report, pkg *ssa.Package, tag string, method
 	r.Check(len(bad) == 0, rule, tag+":arrays-told-apart-after-dispatch["+strings.Join(methods, ",")+"]", "-",
 		fmt.Sprintf("none of the %d functions reachable from the %s methods tests a node against the raw array type without its dispatched views %v", n, strings.Join(methods, "/"), sortedKeys(views)),
 		strings.Join(bad, "; ")+": an array that an earlier hunk or Patch has stored back as a list/set/multiset no longer takes this branch")
+}
+
+// behindNotEqual: block b of fn is reachable only over an edge on which a call
+// of Equals (between nodes) has answered false.
+func behindNotEqual(fn *ssa.Function, b *ssa.BasicBlock) bool {
+	for _, bb := range fn.Blocks {
+		cond, tE, fE, ok := branchEdges(bb)
+		if !ok {
+			continue
+		}
+		neg := false
+		for {
+			u, isU := cond.(*ssa.UnOp)
+			if !isU || u.Op != token.NOT {
+				break
+			}
+			cond, neg = u.X, !neg
+		}
+		c, isCall := cond.(*ssa.Call)
+		if !isCall {
+			continue
+		}
+		isEq := false
+		if c.Call.IsInvoke() {
+			isEq = methodIs(c.Call.Method, "Equals") || c.Call.Method.Name() == "Equals"
+		} else if sf := staticCallee(c); sf != nil && sf.Signature.Recv() != nil {
+			isEq = sf.Name() == "Equals" || theWorld.fnIs(sf, "Equals")
+		}
+		if !isEq {
+			continue
+		}
+		e := fE
+		if neg {
+			e = tE
+		}
+		if edgeDominates(e, b) || (e.To() == b && len(b.Preds) == 1) {
+			return true
+		}
+	}
+	return false
+}
+
+// ruleChildResult — R-CHILDRESULT. In the container patch implementations
+// (object, list) and the leaf patch, the node returned for a hunk whose path
+// goes on below this node is this node (updated), never what patching the
+// child returned: a success return must not hand back, as the result for the
+// parent, the node result of a patch-family call made on something other than
+// the function's own node. Returning the child's result drops every sibling of
+// the addressed member.
+func ruleChildResult(w *World, r *Report, pf *patchFamily) {
+	rule := "R-CHILDRESULT"
+	if pf.tag == "lib" {
+		rule += "(lib)"
+	}
+	n := 0
+	for _, fn := range pf.functions() {
+		calls := pf.familyCalls(fn)
+		if len(calls) == 0 {
+			continue
+		}
+		r.Fn(fnName(fn))
+		var node ssa.Value
+		if fn.Signature.Recv() != nil {
+			node = fn.Params[0]
+		} else if len(fn.Params) > 0 {
+			node = fn.Params[0]
+		}
+		bad := ""
+		for _, pc := range calls {
+			call, ok := pc.call.(*ssa.Call)
+			if !ok {
+				continue
+			}
+			// the node the call patches
+			var target ssa.Value
+			if call.Call.IsInvoke() {
+				target = call.Call.Value
+			} else if len(call.Call.Args) > 0 {
+				target = call.Call.Args[0]
+			}
+			if target == nil || strip(target) == node {
+				continue // the whole job is delegated (merge strategy): fine
+			}
+			if c, isCall := strip(target).(*ssa.Call); isCall && len(c.Call.Args) >= 1 && strip(c.Call.Args[0]) == node {
+				if sf := staticCallee(c); sf != nil && w.helperIs(sf, "dispatch") {
+					continue // the same node seen as list / set / multiset
+				}
+			}
+			n++
+			// its node result must not be returned
+			var res ssa.Value
+			for _, ref := range *call.Referrers() {
+				if ex, ok := ref.(*ssa.Extract); ok && ex.Index == 0 {
+					res = ex
+				}
+			}
+			if res == nil {
+				continue
+			}
+			for _, ret := range returnsOf(fn) {
+				if !isNilErrReturn(ret) && !flowsTo(res, ret.Results[0], 0) {
+					continue
+				}
+				if flowsTo(res, ret.Results[0], 0) {
+					bad = w.Pos(ret.Pos())
+				}
+			}
+		}
+		if n > 0 {
+			r.Check(bad == "", rule, fnName(fn)+":returns-own-node", w.Pos(fn.Pos()),
+				"what patching a child returned is stored into this node, not returned in its place",
+				"the node returned at "+bad+" is what patching the child returned: the parent is replaced by (a wrapper of) its patched child and every sibling of the addressed member is lost")
+		}
+	}
+}
+
+// flowsTo: value v reaches w through phis and value-preserving conversions only.
+func flowsTo(v, w ssa.Value, depth int) bool {
+	if depth > 6 {
+		return false
+	}
+	w = strip(w)
+	if w == v {
+		return true
+	}
+	if phi, ok := w.(*ssa.Phi); ok {
+		for _, e := range phi.Edges {
+			if flowsTo(v, e, depth+1) {
+				return true
+			}
+		}
+	}
+	return false
+}
+
+// ruleValuesFresh — R-VALUESFRESH. The value lists of a hunk (Before, Remove,
+// Add, After) that a diff function builds are lists of their own: a composite
+// literal, the result of nodeList / a helper returning a fresh slice, or an
+// accumulation by append onto the field itself. A list that is (a conversion
+// of) the receiver or the argument shares the backing array of the document:
+// the list patch removes elements of the target in place while it walks the
+// hunk's Remove list, so a diff applied exactly as returned (without being
+// rendered and read back) sees its expectations shift under it.
+func ruleValuesFresh(w *World, r *Report, pkg *ssa.Package, tag string, fields ...string) {
+	rule := "R-VALUESFRESH"
+	if tag != "v2" {
+		rule += "(" + tag + ")"
+	}
+	h := newHunkType(pkg)
+	fr := &freshness{w: w, memo: map[*ssa.Function]int{}}
+	n := 0
+	for _, fn := range w.FuncsOf(pkg) {
+		isDiffFn := false
+		for _, p := range fn.Params {
+			_ = p
+		}
+		if fn.Signature.Results().Len() == 1 && typeName(fn.Signature.Results().At(0).Type()) == "Diff" {
+			isDiffFn = true
+		}
+		if fn.Parent() != nil {
+			root := fn
+			for root.Parent() != nil {
+				root = root.Parent()
+			}
+			isDiffFn = root.Signature.Results().Len() == 1 && typeName(root.Signature.Results().At(0).Type()) == "Diff"
+		}
+		if !isDiffFn {
+			continue
+		}
+		for _, f := range fields {
+			for i, fs := range h.fieldStores(fn, f) {
+				n++
+				key := fmt.Sprintf("%s:%s-store#%d", fnName(fn), f, i+1)
+				v := fs.st.Val
+				// accumulation: append(<same field>, ...)
+				if c, ok := v.(*ssa.Call); ok {
+					if b, isB := c.Call.Value.(*ssa.Builtin); isB && b.Name() == "append" {
+						if ld, isLd := c.Call.Args[0].(*ssa.UnOp); isLd && ld.Op == token.MUL {
+							if fa, isFA := ld.X.(*ssa.FieldAddr); isFA {
+								if fa2, isFA2 := fs.st.Addr.(*ssa.FieldAddr); isFA2 && fa.Field == fa2.Field {
+									r.Ok(rule, key, w.Pos(fs.st.Pos()), "the list grows by append onto itself")
+									continue
+								}
+							}
+						}
+					}
+				}
+				ok, why := fr.freshPath(v, map[ssa.Value]bool{})
+				r.Check(ok, rule, key, w.Pos(fs.st.Pos()), "the hunk's "+f+" list is a list of its own",
+					"the hunk's "+f+" list is "+why+": it shares the backing array of a document, and the list patch edits its target in place while walking the hunk, so the diff applied as returned no longer matches")
+			}
+		}
+	}
+	if n < 8 {
+		r.Bad(rule, tag+":instance-floor", "-", fmt.Sprintf("only %d stores into hunk value lists found in the diff functions", n))
+	}
 }
